@@ -432,6 +432,7 @@ class Engine:
         self.solver.set('timeout', solver_timeout_ms)
         self.branch_queries = 0
         self.functions_used = set()
+        self.siblings = {}              # crate path prefix (e.g. 'vrp_core') -> Engine over that crate's MIR (cross-crate calls)
 
     # ---- feasibility of a branch under the current path condition and assumptions
     def feasible(self, st, cond):
@@ -865,7 +866,21 @@ class Engine:
         return self.choose(st, [(c, True), (z3.Not(c), False)])
 
     # ---- execution
+    def engine_of(self, fn):
+        owner = getattr(fn, 'prog', None)
+        if owner is None or owner is self.prog:
+            return self
+        for e in self.siblings.values():
+            if e.prog is owner:
+                return e
+        return self
+
     def exec_fn(self, st, fn, args):
+        other = self.engine_of(fn)
+        if other is not self:
+            r = other.exec_fn(st, fn, args)
+            self.functions_used |= other.functions_used
+            return r
         self.prog.parse(fn)
         self.functions_used.add(fn.name)
         if len(st.stack) > self.inline_depth:
